@@ -211,6 +211,21 @@ func runC13(r *fw.Runner) {
 			} else {
 				cases = append(cases, labelled{ctx + "/key-duplicate-ids", gen.PAddKeys(k1, baseKey(c.Rng, "mid"), k2), false})
 			}
+			// the duplicate at every pair of positions of lists of 3..5 ids in ascending, descending and mixed order
+			for _, ids := range c13DuplicateIDLists() {
+				var ks []interface{}
+				var km []map[string]interface{}
+				for _, id := range ids {
+					k := baseKey(c.Rng, id)
+					ks, km = append(ks, k), append(km, k)
+				}
+				name := ctx + "/key-duplicate-ids[" + strings.Join(ids, ",") + "]"
+				if ctx == "replace" {
+					cases = append(cases, labelled{name, gen.PReplace(ks, nil), false})
+				} else {
+					cases = append(cases, labelled{name, gen.PAddKeys(km...), false})
+				}
+			}
 			c13Run(c, cases)
 		})
 		r.Case("matrix-in-"+ctx, func(c *fw.Case) {
@@ -287,6 +302,20 @@ func runC13(r *fw.Runner) {
 				cases = append(cases, labelled{ctx + "/service-duplicate-ids", gen.PReplace(nil, []interface{}{s1, s2}), false})
 			} else {
 				cases = append(cases, labelled{ctx + "/service-duplicate-ids", gen.PAddServices(s1, baseService("mid"), s2), false})
+			}
+			for _, ids := range c13DuplicateIDLists() {
+				var ss []interface{}
+				var sm []map[string]interface{}
+				for _, id := range ids {
+					sv := baseService(id)
+					ss, sm = append(ss, sv), append(sm, sv)
+				}
+				name := ctx + "/service-duplicate-ids[" + strings.Join(ids, ",") + "]"
+				if ctx == "replace" {
+					cases = append(cases, labelled{name, gen.PReplace(nil, ss), false})
+				} else {
+					cases = append(cases, labelled{name, gen.PAddServices(sm...), false})
+				}
 			}
 			c13Run(c, cases)
 		})
@@ -442,4 +471,22 @@ func c13Run(c *fw.Case, cases []labelled) {
 			c.Sample(map[string]interface{}{"case": lc.name, "patch": lc.patch, "expected_valid": lc.valid})
 		}
 	}
+}
+
+// c13DuplicateIDLists lists id sequences of length 3..5 (ascending, descending, mixed order) in which the id at position j
+// repeats the one at position i, for every i < j.
+func c13DuplicateIDLists() [][]string {
+	var out [][]string
+	for _, base := range [][]string{{"a", "b", "c", "d", "e"}, {"e", "d", "c", "b", "a"}, {"key2", "key1", "signing", "auth", "Z"}, {"b", "d", "a", "e", "c"}} {
+		for n := 3; n <= 5; n++ {
+			for i := 0; i < n; i++ {
+				for j := i + 1; j < n; j++ {
+					ids := append([]string{}, base[:n]...)
+					ids[j] = ids[i]
+					out = append(out, ids)
+				}
+			}
+		}
+	}
+	return out
 }
